@@ -117,6 +117,8 @@ class Exec:
         self.access_log = None       # optional set of (objname, 'r'/'w')
         self.align_issues = []       # (fn, text, objname, declared, guaranteed)
         self.global_writes = set()
+        self.global_store_log = set()     # (object name, atomic store?, inside a Once initialiser?)
+        self.in_once = 0
         self.funcs_run = set()
         self.reset_path([])
 
@@ -463,7 +465,11 @@ class Exec:
                 raise Inconclusive('Once::call: cannot resolve the closure')
             st = self.new_obj(16, 8, 'OnceState', 'alloca', True, init=T.const(0, 128))
             self.stats['once_inits'] = self.stats.get('once_inits', 0) + 1
-            self.call(fo.func, [data, self.ptr(st)])
+            self.in_once += 1
+            try:
+                self.call(fo.func, [data, self.ptr(st)])
+            finally:
+                self.in_once -= 1
             oo, ooff = self.access(once, 4, 4, True)
             self.write_bits(oo, ooff, T.const(0, 32))
             return None
@@ -621,6 +627,8 @@ class Exec:
             p = self.val(env, ('ptr',), ins.b)
             n = self.ty.sizeof(ty)
             o, off = self.access(p, n, ins.align, True, ins)
+            if o.kind == 'global':
+                self.global_store_log.add((o.name, bool(ins.x), self.in_once > 0))
             self.stats['stores'] += 1
             self.store_val(ty, self.val(env, ty, ins.a), o, off)
             return None
